@@ -2,20 +2,38 @@ from common import *
 from c12 import replay_one
 
 
+def accept(v, outcome, detail):
+    if v["kind"] == "bound":
+        # candidate non-termination: only a real hang / runtime fatal error counts
+        return outcome in ("timeout", "fatal") or "VERIF-HANG" in detail or "VERIF-FATAL" in detail
+    return outcome in ("assert", "panic", "timeout", "fatal")
+
+
 def run(tier, replay=None):
     ck = Check("C16", tier, "model_checking")
     mod = os.path.join(REPO, "fc")
     hp = [os.path.join(VERIF, "harness/fc"), API_DIR]
     N = 5 if tier == "quick" else 7
     env = {"VERIF_N": str(N)}
-    ck.bounds = {"scanner_buffer_bytes": N, "scanner_instruction_budget": 200000}
-    ck.assumptions = ["a path that exhausts the instruction budget is a candidate hang; it is reported only if the native replay does not terminate within 20 s"]
-    rp = NativeReplayer(mod, "main", hp)
+    ck.bounds = {"scanner_buffer_bytes": N, "scanner_instruction_budget": 200000,
+                 "driver": "0..2 arguments x 7 file kinds x unwritable destination",
+                 "damage": "4 templates: truncation at every offset; deletion/duplication/swap of every token; indentation of every line set to 0..8; 864 bodies built from names in scope",
+                 "whole_program_budget": "5e6 instructions, call depth 3000"}
+    ck.assumptions = ["a path that exhausts the instruction budget or the call depth is a candidate hang / stack exhaustion; it is reported only if the real binary does not terminate within 20 s or dies of a Go runtime fatal error",
+                      "a Go panic exit (status 2 with the panic message) counts as 'non-zero exit after printing a diagnostic'",
+                      "os.ReadFile/WriteFile/Exit/Args run against the engine's virtual file system with injected failures"]
+    rp = NativeReplayer(mod, "main", hp, whole_program=True)
     if replay:
         return replay_one(ck, rp, replay, env)
-    # group 1: scanner totality
-    res = run_symgo(mod, hp, "main", "^Harness_C16_", steps=200000, env=env, maxpaths=2000000,
-                    timeout=300 if tier == "quick" else 3000, extra=["-bound-is-violation"])
+    # group 1: scanner totality (byte level)
+    res = run_symgo(mod, hp, "main", "^Harness_C16_(scan|nextToken|tkzNext|ParseSInterP|reinterpretEscape|PosToFilePosInfo)", steps=200000, env=env,
+                    maxpaths=3000000, timeout=300 if tier == "quick" else 3000, extra=["-bound-is-violation"])
     ck.add_run(res)
-    ck.handle_violations(res, rp, env=env, timeout=20, per_key=2)
+    ck.handle_violations(res, rp, env=env, timeout=20, per_key=2, accept=accept)
+    # group 2 + 3: driver discipline, damaged programs
+    res = run_symgo(mod, hp, "main", "^Harness_C16_(Driver|Truncate|TokenDamage|Indent|Bodies)$", steps=5000000, depth=3000, env=env,
+                    maxpaths=3000000, timeout=600, extra=["-bound-is-violation"])
+    ck.add_run(res)
+    ck.handle_violations(res, rp, env=env, timeout=40, per_key=2, accept=accept)
+    # bound paths that were replayed and terminated natively are not incompleteness of the claim
     return ck.finish()
